@@ -17,11 +17,12 @@ import (
 )
 
 type c14Unit struct {
-	b    *c14Bundle
-	es6  bool
-	msgs bool
-	node jsNodeUnit
-	echo []c14Echo // parallel to node.Calls
+	b         *c14Bundle
+	es6       bool
+	msgs      bool
+	node      jsNodeUnit
+	echo      []c14Echo // parallel to node.Calls
+	intMember bool      // trigger of js-int-literal-member holds on some file
 }
 
 func (u *c14Unit) cfg() string {
@@ -156,7 +157,13 @@ func c14Prepare(e *env, b *c14Bundle) []*c14Unit {
 				}
 			}
 			if rerr == nil {
+				if c14IntMember(sf) {
+					u.intMember = true
+				}
 				u.node.Files = append(u.node.Files, jsNodeFile{Name: sf.Name, Code: real, Templates: templatesOf(sf)})
+				if cls == "ok" {
+					c14Wf(e, b, u.cfg(), sf, c.es6, trc, real)
+				}
 			}
 		}
 		if genErr {
@@ -233,6 +240,8 @@ func c14Node(e *env, units []*c14Unit, tag string) {
 				kk := ""
 				if c14ReservedNamespace(u.b) {
 					kk = c14FindingReserved
+				} else if u.intMember {
+					kk = c14FindingIntMember
 				}
 				e.res.Fail(hx.Violation{Kind: "oracle", What: "generated JavaScript is not syntactically valid", Case: cs, Observed: *fr.Syntax}, kk)
 				continue
